@@ -290,7 +290,7 @@ func (c *Ctx) execInstr(fr *Frame, b *ssa.BasicBlock, idx int, in ssa.Instructio
 			_ = id
 		}
 		if x.Object() != nil {
-			if _, isVar := x.Object().(*types.Var); isVar {
+			if vobj, isVar := x.Object().(*types.Var); isVar && !vobj.IsField() {
 				v, ok := fr.regs[x.X]
 				if !ok {
 					if _, isC := x.X.(*ssa.Const); isC {
@@ -330,6 +330,7 @@ func (c *Ctx) execInstr(fr *Frame, b *ssa.BasicBlock, idx int, in ssa.Instructio
 			a = c.alloc(st, elemT, true)
 		}
 		a.Ty = x.Type()
+		c.ghostZero(st, a.S, x.Type())
 		c.bind(st, fr, x, a)
 		if x.Comment != "" {
 			st.vars[c.frameVarKey(fr, x.Comment)] = varBinding{val: a, isAddr: true, ty: elemT}
@@ -971,9 +972,8 @@ func (c *Ctx) execLookup(st *State, fr *Frame, x *ssa.Lookup) {
 	vt := mt.Elem()
 	vs := c.reg.SortOf(vt)
 	ks := k.S
-	if _, isIface := mt.Key().Underlying().(*types.Interface); isIface {
-		c.abort("map with interface keys unsupported")
-	}
+	// interface-typed keys are compared as (tag, payload) pairs: exact for pointer-shaped dynamic
+	// types, an under-approximation of Go's == for boxed value types (listed as an assumption)
 	dom := c.define(st, "dom", "Bool", "(and (not (= "+m.S+" nil)) "+c.mapDom(st, m.S, mt, ks)+")")
 	val := c.define(st, "mv", vs, "(ite "+dom+" "+c.mapVal(st, m.S, mt, ks)+" "+c.zero(vt)+")")
 	st.assume(c.wf(val, vt, st.heapTop))
@@ -1069,4 +1069,50 @@ func nonEscaping(a *ssa.Alloc) bool {
 		return true
 	}
 	return ok(a)
+}
+
+// ghostZero: mutable integer/boolean ghost fields of a newly allocated object (seen through any
+// interface it implements) start at zero/false.
+func (c *Ctx) ghostZero(st *State, addr string, ptrT types.Type) {
+	pt, ok := ptrT.Underlying().(*types.Pointer)
+	if !ok {
+		return
+	}
+	if _, isNamed := pt.Elem().(*types.Named); !isNamed {
+		return
+	}
+	var keys []string
+	for k, g := range c.eng.ghostByType {
+		if g.Mutable {
+			keys = append(keys, k)
+		}
+	}
+	sortStrings(keys)
+	for _, k := range keys {
+		g := c.eng.ghostByType[k]
+		ot := c.eng.ghostOwnerType[k]
+		if ot == nil {
+			continue
+		}
+		iu, ok := ot.Underlying().(*types.Interface)
+		if !ok || !types.Implements(ptrT, iu) {
+			continue
+		}
+		se := &SpecEnv{c: c, st: st, vars: map[string]T{}, pkg: g.Pkg}
+		_, so := se.resolveTypeIn(g.Pkg, g.Sort)
+		var zero string
+		switch so {
+		case "Int":
+			zero = "0"
+		case "Bool":
+			zero = "false"
+		default:
+			continue
+		}
+		mk := "G:" + k
+		c.memSorts[mk] = "(Array Iface " + so + ")"
+		c.eng.ghostOwnerSort[mk] = "Iface"
+		owner := fmt.Sprintf("(mk_iface %d %s)", c.reg.TagOf(ptrT), addr)
+		st.assume("(= (select " + c.mem(st, mk) + " " + owner + ") " + zero + ")")
+	}
 }
